@@ -1,6 +1,7 @@
 """C13 — replaced content: sizing rules, painted rectangle, embedded once."""
 from extract import replaced_consts
 from harness import c13_docs
+from harness import c13_embed
 from harness import c13_exec
 from harness import c13_oracle
 from harness import c13_real as real
@@ -92,6 +93,17 @@ class C13(PropCheck):
             sec.add(line, out, meta=meta, nontrivial=nontrivial, tags=tags)
 
         sec = run.section(
+            'raster-embed', 'tiny Pillow-made images of every mode (1, L, LA, P, PA, RGB, RGBA, CMYK, I, I;16, F) x '
+            'file format (PNG, GIF, JPEG, TIFF, WEBP, BMP) x transparency info x optimize_images / jpeg_quality x '
+            'image-orientation, loaded by the real get_image_from_uri and embedded by the real '
+            'RasterImage.get_x_object: normalised mode, JPEG/PNG path, pass-through or re-encoding, invert_colors, '
+            'ColorSpace, Filter, Colors, SMask, Decode, and the decoded RGBA of the stream + mask against Pillow\'s '
+            'convert("RGBA") of the source; non-trivial = transparency info or a mode other than RGB / L')
+        for k in range(run.n(2500, 40000)):
+            line, out, meta, nontrivial, tags = c13_embed.case_embed(rng)
+            sec.add(line, out, meta=meta, nontrivial=nontrivial, tags=tags)
+
+        sec = run.section(
             'documents', 'generated documents: 1-4 <img>/<object>/<embed> (inline or block, ltr/rtl) showing '
             'Pillow-made PNGs with width/height/min/max in {auto,px,%}, every object-fit, object-position, '
             'image-resolution, image-rendering, and 0-2 boxes with a background image (size/position/repeat/'
@@ -130,15 +142,15 @@ class C13(PropCheck):
                     return found
         cases = (real.case_default_sizing, real.case_constraint, real.case_replacedbox_layout,
                  real.case_used_size, real.case_absolute_replaced, real.case_dedupe, real.case_raster_draw,
-                 real.case_draw_replacedbox, real.case_svg_intrinsic)
+                 real.case_draw_replacedbox, real.case_svg_intrinsic, c13_embed.case_embed)
         for k in range(run.n(4000, 40000)):
             adversarial = k % 5 == 0
-            batch = [case(rng, adversarial)[:2] for case in cases]
-            batch += [c[:2] for c in real.case_backgrounds(rng, adversarial)]
-            for line, out in batch:
+            batch = [case(rng, adversarial)[:3] for case in cases]
+            batch += [c[:3] for c in real.case_backgrounds(rng, adversarial)]
+            for line, out, meta in batch:
                 run.search_stats['evaluations'] += 1
                 what = c13_oracle.judge(line, out)
-                if what and note(what, {'line': line, 'impl': out}, line.split()[0]):
+                if what and note(what, {'line': line, 'impl': out, 'meta': meta}, line.split()[0]):
                     return found
         for k in range(run.n(300, 3000)):
             doc = c13_docs.gen_document(rng)
@@ -150,7 +162,9 @@ class C13(PropCheck):
 
     def finding_replays(self):
         docs.quiet()
-        return {'abs-replaced-ratio-only-width': c13_docs.finding_abs_replaced_ratio_only}
+        return {'abs-replaced-ratio-only-width': c13_docs.finding_abs_replaced_ratio_only,
+                'grey16-embedded-as-rgb8': c13_embed.finding_grey16,
+                'unwritable-mode-crash': c13_embed.finding_unwritable_mode}
 
     def replay(self, data):
         docs.quiet()
@@ -160,6 +174,8 @@ class C13(PropCheck):
         meta = inp.get('meta') if isinstance(inp.get('meta'), dict) else {}
         if 'doc' in meta:
             return c13_docs.judge_document(c13_docs.revive(meta['doc']))
+        if meta.get('fn') == 'RasterImage':
+            return c13_oracle.judge(*c13_embed.replay_embed(meta))
         if 'line' in inp:
             out = c13_exec.execute(inp['line'])
             if out is None:
